@@ -72,13 +72,15 @@ Definition opt_default {A} (d : A) (o : option A) : A := match o with Some x => 
 Definition psetin_issuance_ids (p : psetin) : bytes * bytes :=        (* pset::Input::issuance_ids *)
   let nonce := opt_default zero32 (pi_nonce p) in
   let ent := opt_default zero32 (pi_entropy p) in
-  let entropy := if bytes_eqb nonce zero32 then generate_asset_entropy {| o_txid := pi_txid p; o_vout := pi_index p |} ent else ent in
+  (* the stored index carries the pegin / issuance flag bits; the entropy commits to the plain index (coinbase index exempt) *)
+  let vout := if pi_index p =? u32max then pi_index p else N.land (pi_index p) 1073741823 in
+  let entropy := if bytes_eqb nonce zero32 then generate_asset_entropy {| o_txid := pi_txid p; o_vout := vout |} ent else ent in
   (asset_from_entropy entropy, token_from_entropy entropy (match pi_amount_comm p with Some _ => true | None => false end)).
 Definition psetin_asset_issuance (p : psetin) : issuance :=
   {| i_nonce := opt_default zero32 (pi_nonce p); i_entropy := opt_default zero32 (pi_entropy p);
      i_amount := match pi_amount p, pi_amount_comm p with None, None => VNull | _, Some c => VConf c | Some x, None => VExplicit x end;
      i_keys := match pi_keys p, pi_keys_comm p with None, None => VNull | _, Some c => VConf c | Some x, None => VExplicit x end |}.
-Definition psetin_is_pegin (p : psetin) : bool := negb (N.land (pi_index p) bit30 =? 0).
+Definition psetin_is_pegin (p : psetin) : bool := negb (pi_index p =? u32max) && negb (N.land (pi_index p) bit30 =? 0).
 Definition psetin_extract (p : psetin) : txin :=                      (* the input built by extract_tx (witness left out) *)
   {| in_prev := {| o_txid := pi_txid p; o_vout := if pi_index p =? u32max then pi_index p else N.land (pi_index p) 1073741823 |};
      in_pegin := psetin_is_pegin p; in_script := opt_default [] (pi_final_sig p); in_seq := opt_default u32max (pi_seq p);
